@@ -31,6 +31,9 @@ EXPLANATION = (
     "forward mode a different function than finite differences see). BIND-2: the third AD result is "
     "carried to the next block as the state, the tangent output (index 1) is the value screened for "
     "nan/inf. "
+    "KEYS-1 (non-interference): trial.optimize rewrites no wave_data key that a propagation-intermediates "
+    "builder reads (today it may only replace 'mo_coeff'; 'rdm1' drives the mean-field shift of the plain "
+    "and of the AD runs alike). "
 )
 NOT_DECIDED = (
     "that JAX's derivative equals a finite difference (a property of JAX given purity), the analytic "
